@@ -25,6 +25,7 @@ from ..common import Run, MachineryError, SPEC, seed, ensure_repo_on_path
 from .c11 import tla_graph
 
 ACCELS = ["ethos-u55-128", "ethos-u65-256"]
+ALL_ACCELS = ["ethos-u55-128", "ethos-u65-256", "ethos-u55-32", "ethos-u55-64", "ethos-u55-256", "ethos-u65-512"]
 FAF = {"NONE": 0, "RELU": 1, "RELU_N1_TO_1": 2, "RELU6": 3, "TANH": 4, "SIGN_BIT": 5}
 TT = {"int8": "INT8", "uint8": "UINT8", "int16": "INT16", "int32": "INT32", "float32": "FLOAT32", "int64": "INT64"}
 MODULES = ["SupportedOps.tla", "SupportedOpsGen.tla", "SupportedOpsTrace.tla", "SupportedOpsGen.cfg",
@@ -223,6 +224,20 @@ def observe(op, in_bytes, out_bytes):
     return "NONE", True, []
 
 
+def failure_signature(r):
+    """Stable name of a failed compilation: exception type and where it was raised, or the compiler's error line."""
+    tb = [ln.strip() for ln in (r.get("exc") or "").splitlines() if ln.strip()]
+    if tb:
+        where = [ln for ln in tb if ln.startswith("File ")]
+        loc = where[-1].split(",")[-1].strip() if where else "?"
+        return "%s @ %s" % (tb[-1].split(":")[0][:60], loc)
+    if r.get("timeout"):
+        return "timeout"
+    lines = [ln.strip() for ln in (r.get("stdout", "") + r.get("stderr", "")).splitlines() if ln.strip()]
+    errs = [ln for ln in lines if ln.startswith("Error")]
+    return (errs[-1] if errs else (lines[-1] if lines else "no output"))[:100]
+
+
 def vela_reason(stdout):
     """What the compiler itself printed about the operator producing 'y' (used to name a finding)."""
     lines = stdout.splitlines()
@@ -310,11 +325,10 @@ def run_cases(run, d, recs, variants, accels):
     for job, m, r in zip(jobs, meta, results):
         run.evaluated()
         if r["rc"] != 0 or not r.get("out_bytes"):
-            text = (r.get("exc") or "") + r.get("stdout", "") + r.get("stderr", "")
-            lines = [ln.strip() for ln in text.splitlines() if ln.strip()]
-            sig = (lines[-1] if lines else "no output")[:100]
+            sig = failure_signature(r)
             failed.setdefault(sig, []).append((m["rec"]["c"]["op"], m["rec"]["c"]["axis"]))
-            m["observed"] = "NONE"
+            m.update(observed="FAIL", unchanged=True, diff=[], reason=sig, t=len(events))
+            events.append({"t": len(events), "c": m["rec"]["c"], "observed": "FAIL", "unchanged": True})
             continue
         obs, unchanged, diff = observe(m["rec"]["c"]["op"], r["in_bytes"], r["out_bytes"])
         m.update(observed=obs, unchanged=unchanged, diff=diff, reason=vela_reason(r["stdout"]), t=len(events))
@@ -335,6 +349,13 @@ def report_violations(run, viol, meta, jobs):
         elif kind == "SatisfiesButCpu":
             key = "SatisfiesButCpu|%s|%s" % (c["op"], m["reason"])
             what = "%s satisfies every listed constraint yet stays on the CPU; compiler says: %s" % (c["op"], m["reason"])
+        elif kind == "ViolatesButFails":
+            key = "ViolatesButFails|%s|%s|%s" % (c["op"], "+".join(sorted(failing)), m["reason"])
+            what = ("%s violates the listed constraint(s) %s, so the report promises CPU placement, but the compilation "
+                    "fails: %s" % (c["op"], sorted(failing), m["reason"]))
+        elif kind == "SatisfiesButFails":
+            key = "SatisfiesButFails|%s|%s" % (c["op"], m["reason"])
+            what = "%s satisfies every listed constraint but the compilation fails: %s" % (c["op"], m["reason"])
         else:
             key = "CpuNotUnchanged|%s|%s" % (c["op"], ",".join(m.get("diff", [])))
             what = "%s stays on the CPU but is rewritten (%s)" % (c["op"], m.get("diff"))
@@ -350,7 +371,7 @@ def negative_controls(run, md, events, viol):
     consistent with the real report are used, so the controls do not depend on what the tree under test does."""
     import copy
     bad_t = {v[0] for v in viol}
-    good = [e for e in events if e["t"] not in bad_t]
+    good = [e for e in events if e["t"] not in bad_t and e["observed"] != "FAIL"]
     d, *_ = prepare_spec(run, md)
     flipped = []
     for e in good:
@@ -401,8 +422,8 @@ def main(tier, only=None):
         j2, m2, e2, f2 = run_cases(run, d, extra, ["sandwich"], lambda i: [ACCELS[(i + 1) % 2]])
     else:
         recs = single
-        jobs, meta, events, failed = run_cases(run, d, recs, ["single", "sandwich"], lambda i: ACCELS)
-        j2, m2, e2, f2 = run_cases(run, d, pairs[:900], ["single"], lambda i: [ACCELS[i % 2]])
+        jobs, meta, events, failed = run_cases(run, d, recs, ["single", "sandwich"], lambda i: ALL_ACCELS)
+        j2, m2, e2, f2 = run_cases(run, d, pairs[:4000], ["single"], lambda i: [ALL_ACCELS[i % 6], ALL_ACCELS[(i + 3) % 6]])
     # merge the two batches into one trace
     for m in m2:
         if "t" in m:
@@ -413,7 +434,7 @@ def main(tier, only=None):
     for k, v in f2.items():
         failed.setdefault(k, []).extend(v)
     nfail = sum(len(v) for v in failed.values())
-    if not events:
+    if nfail == len(jobs):
         raise MachineryError("no case compiled (%d of %d failed): %s" % (nfail, len(jobs), json.dumps(failed)[:1500]))
     res, viol = validate(d, events)
     run.add_trace_run("SupportedOpsTrace", res, len(events))
